@@ -101,7 +101,7 @@ def main():
         if code == 0 and not all(d for _, d in det):
             print("INCONCLUSIVE property=%s a canary mutant was not detected" % a.prop)
             code = 3
-    if not a.no_evidence:
+    if not a.no_evidence and not os.environ.get("VERIF_TASKS"):
         runner.write_evidence(ev)
     _finish(code)
 
